@@ -322,6 +322,40 @@ func local() []cat.Program {
 			Files: map[string]string{"page.vuego": `<p :data-n="n" :data-seen="seen">{{ heading }}|{{ n }}|{{ seen }}|{{ extra }}|{{ total }}|{{ printed }}|{{ who2 }}|{{ label }}|{{ who }}</p><b v-if="seen">leak-seen</b><b v-if="extra">leak-extra</b>` + end},
 			Data:  map[string]vals.V{"who": s("xiqWHO")}},
 
+		// HTML comments where they decide the layout of the serialised output although they are
+		// never written: next to an element's only text, as an only child, between top-level nodes
+		// of the page and of components, inside loops, chains and slot content
+		{Name: "x-comments", Canary: "xcmWHO", Feat: []string{"comments", "include", "v-for", "slot"},
+			Files: map[string]string{
+				"page.vuego": `<!-- head --><ul><li><!-- c -->Milk</li><li>Eggs<!-- tail --></li><li><!-- only --></li><li>{{ who }}<!-- after mustache --></li>` +
+					`<li v-for="r in rows"><!-- in loop -->{{ r }}</li><li v-if="flag"><!-- in if -->yes</li><li v-else>no<!-- in else --></li></ul><!-- between -->` +
+					`<p :title="who"><!-- lead -->{{ who }}</p><!-- a --><!-- b --><div><!-- only child --></div><span>x</span><!-- c -->` + "\n" +
+					`<template include="components/xcm-item.vuego" :label="who"><!-- slot content comment -->inner {{ who }}</template><!-- between includes -->` +
+					`<template include="components/xcm-item.vuego" label="second"></template><!-- before end -->` + end + `<!-- trailing -->`,
+				"components/xcm-item.vuego": `<!-- component head --><b><!-- c -->{{ label }}</b><!-- mid --> <i>{{ label }}<!-- t --></i>` + "\n" + `<!-- before slot --><em><slot><!-- fallback comment -->fb</slot></em><!-- component tail -->` + "\n",
+			},
+			Data: map[string]vals.V{"who": s("xcmWHO"), "flag": b(true), "rows": strs("Tea", "Rice")}},
+		{Name: "x-comments-layout", FileOnly: true, Canary: "xclWHO", Feat: []string{"comments", "layout", "front-matter"},
+			Files: map[string]string{
+				"page.vuego":          "---\nlayout: frame\n---\n" + `<!-- page head --><article><!-- c -->{{ who }}</article><!-- page tail -->`,
+				"layouts/frame.vuego": `<!-- layout head --><main><h1><!-- c -->Title</h1><!-- before content --><div v-html="content"></div><p>{{ who }}<!-- t --></p></main><!-- layout tail -->` + end,
+			},
+			Data: map[string]vals.V{"who": s("xclWHO")}},
+		// node-list components (several top-level nodes separated by whitespace-only text, a
+		// trailing newline, a comment between them) included inside <pre>, where every blank is
+		// output: twice per page, in a loop, and across renders
+		{Name: "x-pre-nodelist", Canary: "xpnWHO", Feat: []string{"pre", "node-list-component", "include", "v-for"},
+			Files: map[string]string{
+				"page.vuego": `<pre><template include="components/xpn-kw.vuego" :kw="k1" :name="who"></template></pre>` +
+					`<pre>lead <template include="components/xpn-kw.vuego" :kw="k2" name="second"></template>tail</pre>` +
+					`<pre><template v-for="r in rows" include="components/xpn-kw.vuego" :kw="r" :name="who"></template></pre>` +
+					`<pre><template include="components/xpn-sep.vuego" :kw="k1" :name="who"></template>|<template include="components/xpn-sep.vuego" :kw="k2" :name="who"></template></pre>` +
+					`<div><template include="components/xpn-kw.vuego" :kw="k1" :name="who"></template></div>` + end,
+				"components/xpn-kw.vuego":  "<span>{{ kw }}</span> <span>{{ name }}</span>\n",
+				"components/xpn-sep.vuego": "\n  <b>{{ kw }}</b><!-- sep --> \t<i>{{ name }}</i>  \n\n<u>{{ kw }}</u>\n",
+			},
+			Data: map[string]vals.V{"who": s("xpnWHO"), "k1": s("func"), "k2": s("var"), "rows": strs("if", "for")}},
+
 		// retype twins: DIFFERENT files with the SAME template text (so the same expression texts)
 		// whose data gives the same names differently typed values; on the shared engine they meet
 		// in both orders. Only expressions that are valid for every typing are used here.
